@@ -18,6 +18,9 @@ UNITS = ['msgpack_readers.cpp', 'w_archives.cpp']
 def run(prog, rep):
     from rules import keycmp
     keycmp.check(prog, rep, 'R7.6')      # a map key stored in either integer family is found by a request of either signedness
+    from rules import msgpack_tables as _mt
+    rep.rule('R7.7', 'ReadExtSize (both reader copies): the length field of k = 1, 2, 4 bytes is read once, unsigned, and returned', floor=6)
+    _mt.check_ext_size(prog, rep, 'R7.7')
     M.check_accept_tables(prog, rep)
     M.check_bytecode_table(prog, rep)
     M.check_ext_offsets(prog, rep)
